@@ -1,1 +1,147 @@
-fn main(){ println!("{}", zkryptium::utils::random::random_bits(64)); }
+// hcl: correspondence + oracle harness for the CL03 half of zkryptium (feature `cl03`).
+//
+// usage: hcl <property> <tier> <seed> <outdir>     |  hcl replay <tier> <seed> <outdir> <records.jsonl>
+//        hcl consts
+// Writes <outdir>/ops.txt (protocol lines with the implementation's outcome),
+// <outdir>/ops.jsonl (the same operations with JSON arguments, used for replay) and
+// <outdir>/oracle.json (property-oracle verdicts on the implementation alone).
+#![allow(non_snake_case)]
+#![allow(clippy::too_many_arguments)]
+
+mod flat;
+mod gen;
+mod ops;
+
+use std::collections::BTreeMap;
+
+pub struct Fail {
+    pub what: String,
+    pub class: String,
+    pub lines: Vec<u64>,
+}
+
+pub struct Rng(u64);
+impl Rng {
+    pub fn new(seed: u64) -> Self {
+        Rng(seed.wrapping_add(0x9e3779b97f4a7c15))
+    }
+    pub fn next(&mut self) -> u64 {
+        self.0 = self.0.wrapping_add(0x9e3779b97f4a7c15);
+        let mut z = self.0;
+        z = (z ^ (z >> 30)).wrapping_mul(0xbf58476d1ce4e5b9);
+        z = (z ^ (z >> 27)).wrapping_mul(0x94d049bb133111eb);
+        z ^ (z >> 31)
+    }
+    pub fn below(&mut self, n: u64) -> u64 {
+        if n == 0 { 0 } else { self.next() % n }
+    }
+    pub fn bytes(&mut self, n: usize) -> Vec<u8> {
+        (0..n).map(|_| self.next() as u8).collect()
+    }
+    pub fn chance(&mut self, a: u64, b: u64) -> bool {
+        self.below(b) < a
+    }
+}
+
+pub fn fnv(s: &str) -> u64 {
+    let mut h: u64 = 0xcbf29ce484222325;
+    for b in s.bytes() {
+        h ^= b as u64;
+        h = h.wrapping_mul(0x100000001b3);
+    }
+    h
+}
+
+pub struct H {
+    pub suite: &'static str,
+    pub lines: Vec<String>,
+    pub records: Vec<serde_json::Value>,
+    pub fails: Vec<Fail>,
+    pub stats: BTreeMap<String, u64>,
+    pub next_id: u64,
+    pub rng: Rng,
+    pub thorough: bool,
+    pub oracle_checks: u64,
+}
+
+impl H {
+    pub fn new(suite: &'static str, seed: u64, thorough: bool, next_id: u64) -> Self {
+        H { suite, lines: vec![], records: vec![], fails: vec![], stats: BTreeMap::new(), next_id, rng: Rng::new(seed), thorough, oracle_checks: 0 }
+    }
+    pub fn stat(&mut self, k: &str) {
+        *self.stats.entry(k.to_string()).or_insert(0) += 1;
+    }
+    pub fn expect(&mut self, cond: bool, class: &str, what: &str, lines: &[u64]) {
+        self.oracle_checks += 1;
+        if !cond {
+            self.fails.push(Fail { what: what.to_string(), class: class.to_string(), lines: lines.to_vec() });
+        }
+    }
+    pub fn last(&self) -> u64 {
+        self.next_id - 1
+    }
+}
+
+fn main() {
+    let args: Vec<String> = std::env::args().collect();
+    if args.len() >= 2 && args[1] == "consts" {
+        gen::print_consts();
+        return;
+    }
+    if args.len() < 5 {
+        eprintln!("usage: hcl <property|replay> <tier> <seed> <outdir> [records]");
+        std::process::exit(2);
+    }
+    let prop = args[1].clone();
+    let tier = args[2].clone();
+    let seed: u64 = args[3].parse().unwrap_or(0);
+    let outdir = args[4].clone();
+    std::panic::set_hook(Box::new(|_| {}));
+    std::fs::create_dir_all(&outdir).unwrap();
+    let thorough = tier == "thorough";
+
+    let mut all_lines = Vec::new();
+    let mut all_records = Vec::new();
+    let mut all_fails = Vec::new();
+    let mut stats: BTreeMap<String, u64> = BTreeMap::new();
+    let mut oracle_checks = 0;
+    let mut next_id = 1u64;
+    if prop == "replay" {
+        let text = std::fs::read_to_string(&args[5]).expect("records file");
+        let mut h = H::new("cl1024", seed, thorough, 1);
+        for l in text.lines() {
+            if l.trim().is_empty() || l.starts_with('#') {
+                continue;
+            }
+            if let Ok(v) = serde_json::from_str::<serde_json::Value>(l) {
+                ops::replay_record(&mut h, &v);
+            }
+        }
+        all_lines = h.lines;
+        all_records = h.records;
+    } else {
+        let suites: Vec<&'static str> = if thorough { vec!["cl1024", "cl2048"] } else { vec!["cl1024"] };
+        for suite in suites {
+            let mut h = H::new(suite, seed ^ fnv(&prop) ^ fnv(suite).rotate_left(13), thorough, next_id);
+            gen::run(&mut h, &prop);
+            next_id = h.next_id;
+            oracle_checks += h.oracle_checks;
+            all_lines.append(&mut h.lines);
+            all_records.append(&mut h.records);
+            for f in h.fails {
+                all_fails.push(serde_json::json!({"suite": suite, "class": f.class, "what": f.what, "lines": f.lines}));
+            }
+            for (k, v) in h.stats {
+                *stats.entry(k).or_insert(0) += v;
+            }
+        }
+    }
+    std::fs::write(format!("{}/ops.txt", outdir), all_lines.join("\n") + "\n").unwrap();
+    let recs: Vec<String> = all_records.iter().map(|r| r.to_string()).collect();
+    std::fs::write(format!("{}/ops.jsonl", outdir), recs.join("\n") + "\n").unwrap();
+    let oracle = serde_json::json!({
+        "property": prop, "tier": tier, "seed": seed, "oracle_checks": oracle_checks,
+        "failures": all_fails, "stats": stats, "ops": all_lines.len(),
+    });
+    std::fs::write(format!("{}/oracle.json", outdir), serde_json::to_string_pretty(&oracle).unwrap()).unwrap();
+}
